@@ -212,9 +212,9 @@ def mk_buf(cap=None):
 
 def _buf(eng, st, v):
     loc, b = _loc_of(eng, st, v)
-    if isinstance(b, AggV) and b.kind in (VECBUF, ARRBUF):
+    if isinstance(b, AggV) and b.kind in (VECBUF, ARRBUF) and isinstance(b.fields.get(0), BytesV) and isinstance(b.fields.get(1), K):
         return b
-    return None
+    return None      # not a buffer, or one an unmodelled call has been let loose on (the caller's result is then undecided)
 
 
 def _content(b):
